@@ -88,6 +88,8 @@ func unread(b *bytes.Buffer) []int { return B2I(b.Bytes()) }
 
 var emptyObj = map[string]any{"_t": "nil"}
 
+var savedServices = map[string]any{}
+
 func guarded(f func() error) (res string, errs string) {
 	defer func() {
 		if r := recover(); r != nil {
@@ -206,6 +208,13 @@ func (m *Machine) Exec(op Op) (Event, error) {
 		b := m.buf(op.B)
 		b.Write(I2B(op.Bytes))
 		ev.Post = unread(b)
+	case "poke":
+		// the caller overwrites unread byte K in place
+		b := m.buf(op.B)
+		if op.K < b.Len() && len(op.Bytes) == 1 {
+			b.Bytes()[op.K] = byte(op.Bytes[0])
+		}
+		ev.Post = unread(b)
 	case "load":
 		// a buffer over a caller-owned slice holding exactly these bytes (bytes.NewBuffer)
 		raw := I2B(op.Bytes)
@@ -291,6 +300,20 @@ func (m *Machine) Exec(op Op) (Event, error) {
 		if !ev.Big {
 			ev.Post = unread(b)
 		}
+	case "regremove":
+		// the caller removes a checksum service from the library's registry (restored by "regrestore")
+		svc, ok := codec.Get(op.Alg)
+		if ok {
+			savedServices[op.Alg] = svc
+		}
+		codec.Remove(op.Alg)
+		ev.Res = "ok"
+	case "regrestore":
+		if svc, ok := savedServices[op.Alg]; ok {
+			codec.Registry(svc)
+			delete(savedServices, op.Alg)
+		}
+		ev.Res = "ok"
 	case "prim":
 		b := m.buf(op.B)
 		ev.InLen = b.Len()
